@@ -206,7 +206,7 @@ ReaderModel(b) ==
           ELSE LET w == WalkRecs(b, ps + 4, ps + 4 + start - 1, <<>>, MaxRecords) IN
                IF w.out # "ok" THEN [out |-> w.out]
                ELSE IF ~MandHeaderTyped(w.grp) THEN [out |-> "invalid_argument"]   \* updateHeader cannot find (or cannot read as int/float) what it needs
-               ELSE IF ~MandHeader(w.grp) THEN [out |-> "unspecified"]            \* ... or finds it without any value (blind [0])
+               ELSE IF ~MandHeader(w.grp) THEN [out |-> "invalid_argument"]       \* ... or finds it without any value
                ELSE LET h1 == UpdateHeader(h0, w.grp, <<>>, FALSE)
                         dpos == ps + BlockSize * prm.nblk
                         nf == HdrFrames(h1)
